@@ -193,13 +193,20 @@ pub fn pack(args: &[String]) {
             let apollo_compiler::ast::Definition::ObjectTypeDefinition(t) = &doc.definitions[0] else { return Err("shape".to_string()) };
             // heap-allocated name (from the parser) with a location
             let heap = t.name.clone();
-            let loc = heap.location().ok_or("no location")?;
+            let Some(loc) = heap.location() else {
+                why.push("parsed name without a location".to_string());
+                return Ok(why);
+            };
             if loc.file_id().verif_raw() != id || heap.as_str() != "Tname" || heap.as_static_str().is_some() {
                 why.push(format!("heap name: file id {} text {:?}", loc.file_id().verif_raw(), heap.as_str()));
             }
             // static name given the same location: the tag bit must survive
             let stat = apollo_compiler::name!("Sname").with_location(loc);
-            let l2 = stat.location().ok_or("no location on static")?;
+            // (a missing location is an observation about the code under test, not a tool error)
+            let Some(l2) = stat.location() else {
+                why.push("static name given a location reports none: packing with the tag bit clear lost the file id".to_string());
+                return Ok(why);
+            };
             if l2.file_id().verif_raw() != id || stat.as_str() != "Sname" || stat.as_static_str() != Some("Sname") || l2.offset() != loc.offset() {
                 why.push(format!("static name: file id {} text {:?} static {:?}", l2.file_id().verif_raw(), stat.as_str(), stat.as_static_str()));
             }
